@@ -106,7 +106,12 @@ func main() {
 			if to, ok := l1[p]; ok {
 				edits = append(edits, edit{off(fset, imp.Path.Pos()), off(fset, imp.Path.End()), to})
 			}
-			if doL2 && p == `"time"` {
+			if (doL2 || (*l2 && !usesTimers(f))) && p == `"time"` {
+				// L2 files get the shim clock together with the channel rewrite; the other
+				// files of an L2 build get it when they only read the clock (Now, Since,
+				// durations), so that the whole store sees ONE clock that the harness can
+				// advance. A file that creates timers or tickers without being channel-
+				// rewritten keeps the real package (its channels are real ones).
 				edits = append(edits, edit{off(fset, imp.Path.Pos()), off(fset, imp.Path.End()), `"` + vrtPath + `/vtime"`})
 			}
 			if p == `"`+vrtPath+`"` {
@@ -462,4 +467,22 @@ func (r *rewriter) skipTree(n ast.Node) {
 		}
 		return true
 	})
+}
+
+// usesTimers reports whether the file calls a constructor of the time package whose
+// result carries a channel.
+func usesTimers(f *ast.File) bool {
+	found := false
+	ast.Inspect(f, func(n ast.Node) bool {
+		if se, ok := n.(*ast.SelectorExpr); ok {
+			if id, ok := se.X.(*ast.Ident); ok && id.Name == "time" {
+				switch se.Sel.Name {
+				case "NewTicker", "NewTimer", "After", "AfterFunc", "Tick":
+					found = true
+				}
+			}
+		}
+		return !found
+	})
+	return found
 }
